@@ -14,6 +14,95 @@ use rand::Rng;
 
 const DEFAULT_MAX_HEIGHT: usize = 12;
 
+/// Verification hooks; compiled only with `--cfg rescrv_blue_verif`.
+#[cfg(rescrv_blue_verif)]
+pub mod verif {
+    use std::cell::RefCell;
+    use std::collections::HashSet;
+    use std::sync::Mutex;
+    use std::sync::atomic::{AtomicBool, AtomicPtr, Ordering};
+
+    static HOOK: AtomicPtr<()> = AtomicPtr::new(std::ptr::null_mut());
+
+    /// Install a function called before every atomic pointer operation of the skip list.
+    pub fn set_yield_hook(f: Option<fn(u32)>) {
+        HOOK.store(
+            f.map(|f| f as *mut ()).unwrap_or(std::ptr::null_mut()),
+            Ordering::SeqCst,
+        );
+    }
+
+    #[inline]
+    pub fn yield_point(site: u32) {
+        let p = HOOK.load(Ordering::Relaxed);
+        if !p.is_null() {
+            // SAFETY: only ever stored from a `fn(u32)` in set_yield_hook.
+            let f: fn(u32) = unsafe { std::mem::transmute(p) };
+            f(site);
+        }
+    }
+
+    thread_local! {
+        static HEIGHTS: RefCell<Option<Vec<usize>>> = const { RefCell::new(None) };
+    }
+
+    /// Supply the tower heights the calling thread's next inserts will use (consumed from the
+    /// back); when exhausted or unset the random source is used.
+    pub fn set_heights(h: Option<Vec<usize>>) {
+        HEIGHTS.with(|c| *c.borrow_mut() = h);
+    }
+
+    pub fn next_height() -> Option<usize> {
+        HEIGHTS.with(|c| c.borrow_mut().as_mut().and_then(|v| v.pop()))
+    }
+
+    static REGISTRY_ON: AtomicBool = AtomicBool::new(false);
+    static REGISTRY: Mutex<Option<HashSet<usize>>> = Mutex::new(None);
+
+    /// Switch the node-allocation registry on or off.  Only nodes allocated while it is on are
+    /// tracked, and only dereferences of tracked-then-freed nodes are reported.
+    pub fn set_registry(on: bool) {
+        let mut r = REGISTRY.lock().unwrap();
+        *r = if on { Some(HashSet::new()) } else { None };
+        FREED.lock().unwrap().clear();
+        REGISTRY_ON.store(on, Ordering::SeqCst);
+    }
+
+    static FREED: Mutex<Vec<usize>> = Mutex::new(Vec::new());
+    static UAF: AtomicBool = AtomicBool::new(false);
+
+    pub fn register(p: usize) {
+        if REGISTRY_ON.load(Ordering::Relaxed) {
+            if let Some(r) = REGISTRY.lock().unwrap().as_mut() {
+                r.insert(p);
+            }
+            FREED.lock().unwrap().retain(|x| *x != p);
+        }
+    }
+
+    pub fn unregister(p: usize) {
+        if REGISTRY_ON.load(Ordering::Relaxed) {
+            if let Some(r) = REGISTRY.lock().unwrap().as_mut() {
+                if r.remove(&p) {
+                    FREED.lock().unwrap().push(p);
+                }
+            }
+        }
+    }
+
+    /// Called before a node pointer is dereferenced.
+    pub fn check(p: usize) {
+        if REGISTRY_ON.load(Ordering::Relaxed) && FREED.lock().unwrap().contains(&p) {
+            UAF.store(true, Ordering::SeqCst);
+        }
+    }
+
+    /// True iff a freed node was dereferenced since the last call; resets the flag.
+    pub fn take_use_after_free() -> bool {
+        UAF.swap(false, Ordering::SeqCst)
+    }
+}
+
 /////////////////////////////////////////////// Node ///////////////////////////////////////////////
 
 struct Node<K, V, const MAX_HEIGHT: usize = DEFAULT_MAX_HEIGHT> {
@@ -36,11 +125,15 @@ impl<K, V, const MAX_HEIGHT: usize> Node<K, V, MAX_HEIGHT> {
     }
 
     fn set_next(&self, level: usize, x: *mut Node<K, V, MAX_HEIGHT>) {
+        #[cfg(rescrv_blue_verif)]
+        crate::verif::yield_point(1);
         assert!(level < self.pointers.len());
         self.pointers[level].store(x, Ordering::Release);
     }
 
     fn get_next(&self, level: usize) -> *mut Node<K, V, MAX_HEIGHT> {
+        #[cfg(rescrv_blue_verif)]
+        crate::verif::yield_point(2);
         assert!(level < self.pointers.len());
         self.pointers[level].load(Ordering::Acquire)
     }
@@ -51,6 +144,8 @@ impl<K, V, const MAX_HEIGHT: usize> Node<K, V, MAX_HEIGHT> {
         old_node: *mut Node<K, V, MAX_HEIGHT>,
         new_node: *mut Node<K, V, MAX_HEIGHT>,
     ) -> bool {
+        #[cfg(rescrv_blue_verif)]
+        crate::verif::yield_point(3);
         assert!(level < self.pointers.len());
         self.pointers[level].compare_exchange(
             old_node,
@@ -67,6 +162,8 @@ mod node_ptr {
     fn deref<'a, K, V, const MAX_HEIGHT: usize>(
         ptr: *mut Node<K, V, MAX_HEIGHT>,
     ) -> &'a Node<K, V, MAX_HEIGHT> {
+        #[cfg(rescrv_blue_verif)]
+        crate::verif::check(ptr as usize);
         unsafe { &*ptr }
     }
 
@@ -161,11 +258,22 @@ impl<K: Eq + Ord + Default, V: Default, const MAX_HEIGHT: usize> SkipList<K, V, 
     fn new_node(key: K, value: V, height: usize) -> *mut Node<K, V, MAX_HEIGHT> {
         assert!(height > 0);
         assert!(height <= MAX_HEIGHT);
+        #[cfg(rescrv_blue_verif)]
+        {
+            let p: *mut Node<K, V, MAX_HEIGHT> = Box::leak(Box::new(Node::new(key, value, height)));
+            crate::verif::register(p as usize);
+            return p;
+        }
+        #[cfg(not(rescrv_blue_verif))]
         Box::leak(Box::new(Node::new(key, value, height)))
     }
 
     fn random_height() -> usize {
         const BRANCHING: u8 = 4;
+        #[cfg(rescrv_blue_verif)]
+        if let Some(h) = crate::verif::next_height() {
+            return h.clamp(1, MAX_HEIGHT);
+        }
         let mut height = 1usize;
         let mut rng = rand::thread_rng();
         while height < MAX_HEIGHT && rng.r#gen::<u8>() % BRANCHING == 0 {
@@ -291,6 +399,8 @@ impl<K, V, const MAX_HEIGHT: usize> Drop for SkipList<K, V, MAX_HEIGHT> {
         while !ptr.is_null() {
             let to_drop = ptr;
             ptr = node_ptr::get_next(ptr, 0);
+            #[cfg(rescrv_blue_verif)]
+            crate::verif::unregister(to_drop as usize);
             drop(unsafe { Box::from_raw(to_drop) });
         }
     }
